@@ -148,6 +148,17 @@ Record dec_sim (phi : list cluster) (uu : list id) (d : rdec) (r : cswitch) : Pr
   ds_cases : Forall2 (case_sim (map cc_uuid (sw_all_cats r))) (rd_cases d) (sw_cases r);
   ds_uuids : NoDup (map cc_uuid (sw_all_cats r)) }.
 
+(* every case of the decision leads to one of its own (non-default) categories: routers that only grow by add_case *)
+Definition plain_dec (d : rdec) : Prop := Forall (fun k => snd k < length (rd_cats d)) (rd_cases d).
+
+(* the shape of a decision by the Python class of its node *)
+Definition shape_ok (cls : swclass) (d : rdec) : Prop :=
+  match cls with
+  | SPlain => plain_dec d
+  | SEnter => exists x, rd_cats d = [(CFixed s_Complete, x)]
+  | SOutcome => exists x, rd_cats d = [(CFixed s_Success, x)]
+  end.
+
 (* the class of a reference row against the Python class of the row's node and the row type the group remembers *)
 Definition class_ok (cls : eclass) (rt : rowtype) (b : cbody) : Prop :=
   match cls, b with
@@ -167,11 +178,11 @@ Inductive node_sim (phi : list cluster) (uu : list id) : rnode -> cnode -> optio
     dest_sim phi uu (rn_cont n) (x_dest e) -> node_sim phi uu n nd None
 | NS_router n nd cls r d :
     rn_dec n = Some d -> cn_body nd = BSwitch cls r -> map snd (cn_actions nd) = rn_actions n ->
-    dec_sim phi uu d r -> node_sim phi uu n nd None
+    dec_sim phi uu d r -> shape_ok cls d -> node_sim phi uu n nd None
 | NS_implicit n nd e nr r d :
     rn_dec n = Some d -> cn_body nd = BBasic e -> map snd (cn_actions nd) = rn_actions n ->
     x_dest e = Some (cn_uuid nr) -> cn_uuid nr <> hard_exit_sentinel ->
-    cn_body nr = BSwitch SPlain r -> cn_actions nr = [] -> dec_sim phi uu d r ->
+    cn_body nr = BSwitch SPlain r -> cn_actions nr = [] -> dec_sim phi uu d r -> plain_dec d ->
     node_sim phi uu n nd (Some nr).
 
 Definition cluster_nodes (cn : list cnode) (c : cluster) : option (cnode * option cnode) :=
